@@ -264,6 +264,8 @@ func isResultOfCall(v ssa.Value, idx int, keys ...string) ssa.CallInstruction {
 // calls) reach a value satisfying src?
 func derivesFrom(v ssa.Value, src func(ssa.Value) bool, passThrough ...string) bool {
 	seen := map[ssa.Value]bool{}
+	// parameters of straight-line module helpers entered on the way stand for the call's arguments
+	bind := map[*ssa.Parameter]ssa.Value{}
 	var walk func(v ssa.Value) bool
 	walk = func(v ssa.Value) bool {
 		if v == nil || seen[v] {
@@ -348,6 +350,20 @@ func derivesFrom(v ssa.Value, src func(ssa.Value) bool, passThrough ...string) b
 						}
 					}
 				}
+			}
+			// a straight-line helper of the module computing the value: continue in its body
+			if h := x.Call.StaticCallee(); h != nil && h.Pkg != nil && strings.HasPrefix(h.Pkg.Pkg.Path()+"/", Mod) && straightLine(h) && len(bind) < 16 {
+				rets := returnsOf(h)
+				if len(rets) == 1 && len(rets[0].Results) == 1 && len(h.Params) == len(x.Call.Args) {
+					for i, p := range h.Params {
+						bind[p] = x.Call.Args[i]
+					}
+					return walk(rets[0].Results[0])
+				}
+			}
+		case *ssa.Parameter:
+			if a, ok := bind[x]; ok {
+				return walk(a)
 			}
 		}
 		return false
